@@ -400,3 +400,21 @@ def run(ck):
               'import_module(Directory(<own dir>)) precedes the loop over program.imports()' if ok else
               'the own directory is imported after (or not apart from) the explicit imports: it shadows them, so a component that extends the same-named component of an imported directory '
               'resolves its super class to itself', fn=fn['path'])
+
+    # the stack of imported modules is searched from the back (a later import shadows an earlier one), which is what the order above is for
+    gt = next((f for f in L.fn_list if f['name'] == 'get_type' and 'ImportedModuleSpace' in (f.get('impl_self') or '')), None)
+    if gt is None:
+        ck.floor('R18.4', 0, 1, 'fn ImportedModuleSpace::get_type')
+    else:
+        ck.analysed(gt['path'])
+        fm = next((c for c in H.calls_in(gt['body']) if c.get('k') == 'MCall' and c.get('m') in ('find_map', 'find', 'filter_map')), None)
+        chain = []
+        x = H.strip_refs(fm['recv']) if fm is not None else {}
+        while x.get('k') == 'MCall':
+            chain.append(x.get('m'))
+            x = H.strip_refs(x['recv'])
+        ok = fm is not None and fm['m'] == 'find_map' and list(reversed(chain)) == ['iter', 'rev'] and x.get('k') == 'Field' and x.get('f') == 'data_stack'
+        ck.ob('R18.4', 'import-stack-searched-from-the-back', ok, L.loc(fm) if fm is not None else L.loc(gt['body']),
+              'data_stack.iter().rev().find_map(..): the last import that knows the name wins' if ok else
+              'the imported modules are searched as data_stack.%s().%s(..): an earlier import wins over a later one, so `import "dir"` no longer shadows the own directory '
+              '(a type name provided twice resolves to the other class: other ancestry, other element kind)' % ('().'.join(reversed(chain)), fm['m'] if fm is not None else '?'), fn=gt['path'])
